@@ -39,6 +39,14 @@ example := C01_drain_chunked Ex.headTE Ex.chunks Ex.last [.byte 7, .pause]
   (by decide +kernel) (by decide +kernel) (by decide +kernel) (by decide +kernel) (by decide +kernel)
   (by decide +kernel)
 
+/-- non-vacuity, with a trailer section behind the last-chunk (skipped: not part of the bytes) -/
+example := C01_drain_chunked Ex.headTE Ex.chunks Ex.lastT [.byte 7, .pause]
+  (Ex.seg (Ex.headTE.render ++ encChunks Ex.chunks ++ Ex.lastT.enc) ++ [.data [7], .pause]) 8 4 100 .get
+  3
+  (by decide +kernel) (by decide) (by decide) (by decide) (by decide +kernel) (by decide +kernel)
+  (by decide +kernel) (by decide +kernel) (by decide +kernel) (by decide +kernel) (by decide +kernel)
+  (by decide +kernel)
+
 /-- (b) `Content-Length` framing: the helpers return exactly the `Content-Length` octets. -/
 theorem C01_drain_length (h : HeadS) (body : Bytes) (trail : List Item)
     (t : Transport) (cap maxBuf mh : Nat) (m : Method) (sz : Nat)
